@@ -7,6 +7,7 @@ import GraphrsModel.ObsClu
 import GraphrsModel.ObsComm
 import GraphrsModel.ObsGen
 import GraphrsModel.ObsXml
+import GraphrsModel.ObsDegen
 open Graphrs
 
 /-- `store <specs> <universe> <w> <ops>`: the concrete model's and the specification's
@@ -48,6 +49,8 @@ def handle (line : String) : String :=
       | "gnp" => run handleGnp
       | "gnpstat" => "m.none=0"
       | "xml" => run handleXml
+      | "par" => "m.build=0"
+      | "degen" => run handleDegen
       | _ => "bad-request command"
 
 partial def loop (h : IO.FS.Stream) (out : IO.FS.Stream) : IO Unit := do
